@@ -1,8 +1,12 @@
 HOOK_COMMITS = ["02f9353", "72e5056", "18a44a3"]
+FIX_COMMITS = []
 NOTES = ("Runtime monitoring only: every verdict is 'held on the executions observed'. Exit 0 held / 1 violation / 2 harness failure. "
          "Known genuine defects are listed in known_findings.json and printed as KNOWN-FINDING lines.")
 NOT_APPLICABLE = {}
 CHECKS = {
+ "C14": dict(level="exploration", technique="differential oracle: Python big-int/IEEE float reference for every (operator, operand pair, type mix, order); crash bisection",
+             text="~2.3e5 (quick) / 8e6 (thorough) operator applications over boundary-dense operands in all type mixes (number, int/s64, int/u64, numeric string), function and :method forms, compared with an exact reference implementing the documented conventions (wrap, truncating /, flooring div/mod, mod-by-zero, error on zero division and on operands that do not fit, polymorphic compare over the whole range). A batch that dies is bisected to the killing input.",
+             note="Trusts Python arithmetic. C-undefined shift counts and INT64_MIN/-1 wrap-or-raise are out of scope by statement. Held only on generated operands."),
  "C13": dict(level="exploration", technique="differential oracle: exact rational arithmetic (Python Fraction) vs bits of scanned double; print/scan round-trip monitor",
              text="Generated literals (radix 2..36, hex-p, ties between adjacent doubles, overflow/underflow edges) carry their exact rational value; the scanned double's raw bits must be the exact value or one of its two neighbours. Random/edge doubles must survive %.17g and %j round trips bit-for-bit; integers up to 2^53 print exactly; int64 text round-trips or is rejected.",
              note="Trusts Python's Fraction/nextafter and that buffer/push-float64 copies the double's bytes. Held only on the literals generated."),
